@@ -92,6 +92,26 @@ let handle_case kind c =
           i (string_of_bytes meth) (string_of_bytes url)
           (clip (string_of_bytes (bytes_of_tok bprefix))) bpadn bpad ((String.length bsuffix - 1) / 2)
           size_ok (decoded <> None) status (clip (show_fs !before)) (clip (show_fs after)) in
+      (* why the model calls a decoded report's contents unapproved (for the replay text) *)
+      let why () =
+        match decoded with
+        | None -> ""
+        | Some r ->
+          let items = List.concat_map (function
+              | None -> ["a null program"]
+              | Some p when program_ok cfg p -> []
+              | Some p ->
+                let bad_c = List.filter_map (fun (c, _) ->
+                    if has_counter cfg p.pg_name c then None
+                    else Some (Printf.sprintf "counter %S of %S is not a configured counter of that program" (string_of_bytes c) (string_of_bytes p.pg_name)))
+                    p.pg_counters in
+                let bad_s = List.filter_map (fun (st, _) ->
+                    if has_stack cfg p.pg_name (stack_prefix st) then None
+                    else Some (Printf.sprintf "stack %S of %S is not a configured stack of that program" (string_of_bytes st) (string_of_bytes p.pg_name)))
+                    p.pg_stacks in
+                if bad_c = [] && bad_s = [] then [Printf.sprintf "program build of %S not approved" (string_of_bytes p.pg_name)]
+                else bad_c @ bad_s) r.r_programs in
+          if items = [] then "" else " [not approved: " ^ String.concat "; " items ^ "]" in
       (* model vs implementation *)
       let (mst, mfs) = handle semver marshal cfg meth size_ok decoded !before in
       if show_status mst <> status then
@@ -126,7 +146,7 @@ let handle_case kind c =
           if has_null then prop "null-program-5xx" (describe ()) else prop "never-5xx" (describe ())
         end;
         if not size_ok && (status <> "4xx" || changed) then prop "oversize-refused" (describe ())
-        else if status = "2xx" || changed then prop "stores-iff-valid" ("invalid request stored or acknowledged: " ^ describe ())
+        else if status = "2xx" || changed then prop "stores-iff-valid" ("invalid request stored or acknowledged:" ^ why () ^ " " ^ describe ())
         else if status <> "4xx" && status <> "5xx" then prop "reject-4xx" (describe ())
       end;
       ignore foreign;
